@@ -10,6 +10,7 @@ import json, os, re, select, subprocess, sys, time, threading, queue, hashlib, s
 ROOT = os.path.dirname(os.path.abspath(__file__))
 BUILD = os.environ.get("VERIF_BUILD", os.path.join(ROOT, "build"))
 LOGDIR = os.path.join(BUILD, "logs")
+OUT = os.environ.get("VERIF_OUT", ROOT)   # where evidence/ and replays/ go (sensitivity runs on scratch trees set this)
 JOBS = int(os.environ.get("VERIF_JOBS", "16"))
 
 sys.path.insert(0, ROOT)
@@ -688,7 +689,7 @@ def check(prop, tier):
     exit_code = 0
     lines = []
     known_hit = {}
-    replay_dir = os.path.join(ROOT, "replays", prop)
+    replay_dir = os.path.join(OUT, "replays", prop)
     viol_count = 0
     for (p, c), info in sorted(found.items()):
         if p == "HARNESS":
@@ -765,8 +766,8 @@ def check(prop, tier):
         "wall_s": round(wall, 2),
         "violations": viol_count,
     }
-    os.makedirs(os.path.join(ROOT, "evidence"), exist_ok=True)
-    with open(os.path.join(ROOT, "evidence", prop + ".json"), "w") as fh:
+    os.makedirs(os.path.join(OUT, "evidence"), exist_ok=True)
+    with open(os.path.join(OUT, "evidence", prop + ".json"), "w") as fh:
         json.dump(ev, fh, indent=1, sort_keys=True)
     print("%s %s: %d runs (%d non-trivial, %d distinct), %d ops, %.1fs, faults fired: %s" % (prop, tier, stats["runs"], stats["nontrivial_runs"], len(plan_hashes_nontrivial), stats["ops"], wall,
           ",".join("%s=%d" % kv for kv in sorted(stats["faults"].items())) or "none"))
